@@ -329,22 +329,72 @@ def unroll_literal_loops(fn: ast.AST, module_top=None) -> bool:
                 return copy.deepcopy(self.repl)
             return n
 
+    def _simple(e):
+        return isinstance(e, (ast.Constant, ast.Name)) or (isinstance(e, ast.Attribute) and _simple(e.value))
+
+    def local_literal(name):
+        """the display a local is bound to exactly once, when nothing else touches the local (no rebinding, no method call, no item store)"""
+        defs = [s for s in ast.walk(fn) if isinstance(s, ast.Assign) and len(s.targets) == 1 and isinstance(s.targets[0], ast.Name) and s.targets[0].id == name]
+        stores = [n for n in ast.walk(fn) if isinstance(n, ast.Name) and n.id == name and isinstance(n.ctx, (ast.Store, ast.Del))]
+        if len(defs) != 1 or len(stores) != 1 or any(a.arg == name for a in ast.walk(fn) if isinstance(a, ast.arg)):
+            return None
+        v = defs[0].value
+        if isinstance(v, (ast.Tuple, ast.List)) and all(_simple(x) for x in v.elts):
+            pass
+        elif isinstance(v, ast.Dict) and all(isinstance(k, ast.Constant) for k in v.keys) and all(_simple(x) for x in v.values):
+            pass
+        else:
+            return None
+        for n in ast.walk(fn):
+            if isinstance(n, ast.Attribute) and isinstance(n.value, ast.Name) and n.value.id == name and n.attr not in ("items", "keys", "values", "get"):
+                return None
+            if isinstance(n, ast.Subscript) and isinstance(n.value, ast.Name) and n.value.id == name and not isinstance(n.ctx, ast.Load):
+                return None
+        return v
+
     def seq(loop):
-        if isinstance(loop.iter, ast.Name) and loop.iter.id in local_stores:
+        it = loop.iter
+        if isinstance(it, ast.Name) and it.id in local_stores:
+            v = local_literal(it.id)
+            if isinstance(v, (ast.Tuple, ast.List)):
+                return v
+            if isinstance(v, ast.Dict):
+                return ast.Tuple(list(v.keys), ast.Load())
+            return None
+        if isinstance(it, ast.Call) and not it.args and not it.keywords and isinstance(it.func, ast.Attribute) and isinstance(it.func.value, ast.Name) \
+                and it.func.attr in ("items", "keys", "values"):
+            v = local_literal(it.func.value.id)
+            if isinstance(v, ast.Dict):
+                if it.func.attr == "items":
+                    return ast.Tuple([ast.Tuple([k, x], ast.Load()) for k, x in zip(v.keys, v.values)], ast.Load())
+                return ast.Tuple(list(v.keys if it.func.attr == "keys" else v.values), ast.Load())
             return None
         return _const_seq(module_top, loop.iter)
 
+    def targets(loop):
+        t = loop.target
+        if isinstance(t, ast.Name):
+            return [t.id]
+        if isinstance(t, ast.Tuple) and all(isinstance(x, ast.Name) for x in t.elts):
+            return [x.id for x in t.elts]
+        return None
+
     def ok(loop):
         sq = seq(loop)
-        if sq is None or loop.orelse or not isinstance(loop.target, ast.Name) or not (1 <= len(sq.elts) <= 16):
+        tg = targets(loop)
+        if sq is None or loop.orelse or tg is None or not (0 <= len(sq.elts) <= 16):
+            return False
+        if not sq.elts and not (isinstance(loop.iter, ast.Name) or isinstance(loop.iter, ast.Call)):
             return False
         if any(isinstance(e, ast.Starred) for e in sq.elts):
+            return False
+        if len(tg) > 1 and not all(isinstance(e, ast.Tuple) and len(e.elts) == len(tg) for e in sq.elts):
             return False
         for b in loop.body:
             for n in ast.walk(b):
                 if isinstance(n, (ast.Break, ast.Continue, ast.FunctionDef, ast.Lambda, ast.Yield, ast.YieldFrom)):
                     return False
-                if isinstance(n, ast.Name) and n.id == loop.target.id and not isinstance(n.ctx, ast.Load):
+                if isinstance(n, ast.Name) and n.id in tg and not isinstance(n.ctx, ast.Load):
                     return False
         return True
 
@@ -355,10 +405,17 @@ def unroll_literal_loops(fn: ast.AST, module_top=None) -> bool:
             s = blk[i]
             if isinstance(s, ast.For) and ok(s):
                 out = []
+                tg = targets(s)
                 for e in seq(s).elts:
                     for b in s.body:
-                        out.append(S(s.target.id, e).visit(copy.deepcopy(b)))
-                blk[i : i + 1] = out
+                        c = copy.deepcopy(b)
+                        if len(tg) == 1:
+                            c = S(tg[0], e).visit(c)
+                        else:
+                            for nm, x in zip(tg, e.elts):
+                                c = S(nm, x).visit(c)
+                        out.append(c)
+                blk[i : i + 1] = out or [ast.copy_location(ast.Pass(), s)]
                 changed = True
                 continue
             for fld in ("body", "orelse", "finalbody"):
@@ -598,6 +655,10 @@ def scalar_replace(fn: ast.AST, module) -> bool:
     vals = {}
 
     def ctor_fields(call):
+        if isinstance(call, ast.Call) and isinstance(call.func, ast.Name) and call.func.id in groups and len(call.args) == 1 \
+                and isinstance(call.args[0], ast.Starred) and not call.keywords:
+            # `_Group(*f(...))`: all fields at once, unpacked from one value
+            return ({"*": call.args[0].value}, [fname for fname, _ in groups[call.func.id]])
         if not (isinstance(call, ast.Call) and isinstance(call.func, ast.Name) and call.func.id in groups
                 and not any(isinstance(a, ast.Starred) for a in call.args) and not any(k.arg is None for k in call.keywords)):
             return None
@@ -613,13 +674,31 @@ def scalar_replace(fn: ast.AST, module) -> bool:
         return (d, [fname for fname, _ in flds]) if all(fname in d for fname, _ in flds) else None
 
     per_site = {}  # id(call) -> (field values, order): a local may be built in several branches
-    for nm, vs in binds.items():
-        if vs and all(v is not None for v in vs) and len({v.func.id for v in vs if isinstance(v, ast.Call) and isinstance(v.func, ast.Name)}) == 1:
-            cf = [ctor_fields(v) for v in vs]
-            if all(c is not None for c in cf):
-                vals[nm] = cf[0]
-                for v, c in zip(vs, cf):
-                    per_site[id(v)] = c
+    copies = {}    # id(Name value) -> source group local: `best = fit`
+    grow = True
+    while grow:
+        grow = False
+        for nm, vs in binds.items():
+            if nm in vals or not vs or any(v is None for v in vs):
+                continue
+            ctors = [v for v in vs if isinstance(v, ast.Call)]
+            names = [v for v in vs if isinstance(v, ast.Name)]
+            if len(ctors) + len(names) != len(vs) or not ctors and not all(v.id in vals for v in names):
+                continue
+            if len({v.func.id for v in ctors if isinstance(v.func, ast.Name)}) > 1 or not all(v.id in vals for v in names):
+                continue
+            cf = [ctor_fields(v) for v in ctors]
+            if not all(c is not None for c in cf):
+                continue
+            order = cf[0][1] if cf else vals[names[0].id][1]
+            if any(vals[v.id][1] != order for v in names):
+                continue
+            vals[nm] = ({k: None for k in order}, order)
+            for v, c in zip(ctors, cf):
+                per_site[id(v)] = c
+            for v in names:
+                copies[id(v)] = v.id
+            grow = True
     if not vals:
         return False
     changed = False
@@ -655,10 +734,18 @@ def scalar_replace(fn: ast.AST, module) -> bool:
                 changed = True
                 return s
             # the defining assignment: one local per field, then the group built from those locals
-            if len(s.targets) == 1 and isinstance(s.targets[0], ast.Name) and s.targets[0].id in vals and isinstance(s.value, ast.Call):
+            if len(s.targets) == 1 and isinstance(s.targets[0], ast.Name) and s.targets[0].id in vals and isinstance(s.value, ast.Name) and id(s.value) in copies:
+                g, src = s.targets[0].id, copies[id(s.value)]
+                out = [ast.copy_location(ast.Assign([ast.Name(fld_name(g, k), ast.Store())], ast.Name(fld_name(src, k), ast.Load())), s) for k in vals[g][1]]
+                changed = True
+                return out + [s]
+            if len(s.targets) == 1 and isinstance(s.targets[0], ast.Name) and s.targets[0].id in vals and isinstance(s.value, ast.Call) and id(s.value) in per_site:
                 g = s.targets[0].id
-                d, order = per_site.get(id(s.value), vals[g])
-                out = [ast.copy_location(ast.Assign([ast.Name(fld_name(g, k), ast.Store())], copy.deepcopy(d[k])), s) for k in order]
+                d, order = per_site[id(s.value)]
+                if "*" in d:
+                    out = [ast.copy_location(ast.Assign([ast.Tuple([ast.Name(fld_name(g, k), ast.Store()) for k in order], ast.Store())], copy.deepcopy(d["*"])), s)]
+                else:
+                    out = [ast.copy_location(ast.Assign([ast.Name(fld_name(g, k), ast.Store())], copy.deepcopy(d[k])), s) for k in order]
                 s.value = ast.copy_location(ast.Call(s.value.func, [ast.Name(fld_name(g, k), ast.Load()) for k in order], []), s.value)
                 changed = True
                 return out + [s]
@@ -666,6 +753,33 @@ def scalar_replace(fn: ast.AST, module) -> bool:
 
     T().visit(fn)
     if changed:
+        # a group that is no longer read as a whole is not rebuilt either
+        def _dead():
+            loads = {n.id for n in ast.walk(fn) if isinstance(n, ast.Name) and isinstance(n.ctx, ast.Load)}
+            return {g for g in vals if g not in loads}
+
+        dead = _dead()
+
+        class Drop(ast.NodeTransformer):
+            def visit_Assign(self, s):
+                if len(s.targets) == 1 and isinstance(s.targets[0], ast.Name) and s.targets[0].id in dead:
+                    if isinstance(s.value, ast.Name) or (isinstance(s.value, ast.Call) and isinstance(s.value.func, ast.Name) and s.value.func.id in groups
+                                                         and all(isinstance(a, ast.Name) for a in s.value.args)):
+                        return None
+                return s
+
+        while dead:
+            Drop().visit(fn)
+            more = _dead() - dead
+            if not more:
+                break
+            dead |= more
+        if dead:
+            for parent in ast.walk(fn):
+                for fld in ("body", "orelse", "finalbody"):
+                    b = getattr(parent, fld, None)
+                    if isinstance(b, list) and not b and fld == "body":
+                        parent.body = [ast.Pass()]
         ast.fix_missing_locations(fn)
     return changed
 
@@ -1031,6 +1145,166 @@ def unroll_unpacked_comprehension(fn: ast.AST) -> bool:
                     i += k
                     continue
             i += 1
+    if changed:
+        ast.fix_missing_locations(fn)
+    return changed
+
+
+# ---------------------------------------------------------------------------
+def desugar_attr_builtins(fn: ast.AST) -> bool:
+    """`setattr(o, "k", v)` (a statement) -> `o.k = v` ; `getattr(o, "k")` -> `o.k` - only with a constant identifier name."""
+    changed = False
+
+    def ident(e):
+        return isinstance(e, ast.Constant) and isinstance(e.value, str) and e.value.isidentifier()
+
+    class T(ast.NodeTransformer):
+        def visit_Expr(self, s):
+            nonlocal changed
+            self.generic_visit(s)
+            c = s.value
+            if isinstance(c, ast.Call) and isinstance(c.func, ast.Name) and c.func.id == "setattr" and len(c.args) == 3 and not c.keywords and ident(c.args[1]):
+                changed = True
+                return ast.copy_location(ast.Assign([ast.Attribute(c.args[0], c.args[1].value, ast.Store())], c.args[2]), s)
+            return s
+
+        def visit_Call(self, c):
+            nonlocal changed
+            self.generic_visit(c)
+            if isinstance(c.func, ast.Name) and c.func.id == "getattr" and len(c.args) == 2 and not c.keywords and ident(c.args[1]):
+                changed = True
+                return ast.copy_location(ast.Attribute(c.args[0], c.args[1].value, ast.Load()), c)
+            return c
+
+    T().visit(fn)
+    if changed:
+        ast.fix_missing_locations(fn)
+    return changed
+
+
+def resolve_literal_splats(fn: ast.AST) -> bool:
+    """`f(*rest)` / `f(**given)` where the local is bound exactly once to a tuple / dict display (what a variadic helper parameter
+    becomes when the helper is expanded) -> the explicit arguments."""
+    changed = False
+
+    def single(name, kinds):
+        defs = [s for s in ast.walk(fn) if isinstance(s, ast.Assign) and len(s.targets) == 1 and isinstance(s.targets[0], ast.Name) and s.targets[0].id == name]
+        stores = [n for n in ast.walk(fn) if isinstance(n, ast.Name) and n.id == name and isinstance(n.ctx, (ast.Store, ast.Del))]
+        if len(defs) == 1 and len(stores) == 1 and isinstance(defs[0].value, kinds) and not any(a.arg == name for a in ast.walk(fn) if isinstance(a, ast.arg)):
+            muts = [n for n in ast.walk(fn) if isinstance(n, ast.Attribute) and isinstance(n.value, ast.Name) and n.value.id == name and n.attr not in ("items", "keys", "values", "get")]
+            subs = [n for n in ast.walk(fn) if isinstance(n, ast.Subscript) and isinstance(n.value, ast.Name) and n.value.id == name and not isinstance(n.ctx, ast.Load)]
+            if not muts and not subs:
+                return defs[0].value
+        return None
+
+    for c in [n for n in ast.walk(fn) if isinstance(n, ast.Call)]:
+        new_args = []
+        for a in c.args:
+            v = single(a.value.id, (ast.Tuple, ast.List)) if isinstance(a, ast.Starred) and isinstance(a.value, ast.Name) else None
+            if v is not None and not any(isinstance(x, ast.Starred) for x in v.elts):
+                new_args.extend(copy.deepcopy(x) for x in v.elts)
+                changed = True
+            else:
+                new_args.append(a)
+        c.args = new_args
+        new_kw = []
+        for k in c.keywords:
+            v = single(k.value.id, (ast.Dict,)) if k.arg is None and isinstance(k.value, ast.Name) else None
+            if v is not None and all(isinstance(x, ast.Constant) and isinstance(x.value, str) for x in v.keys):
+                new_kw.extend(ast.keyword(x.value, copy.deepcopy(y)) for x, y in zip(v.keys, v.values))
+                changed = True
+            else:
+                new_kw.append(k)
+        c.keywords = new_kw
+    if changed:
+        ast.fix_missing_locations(fn)
+    return changed
+
+
+# ---------------------------------------------------------------------------
+def might_fuse(node: ast.AST) -> bool:
+    names = set()
+    for n in ast.walk(node):
+        if isinstance(n, ast.Assign) and isinstance(n.value, (ast.GeneratorExp, ast.ListComp)) and len(n.targets) == 1 and isinstance(n.targets[0], ast.Name):
+            names.add(n.targets[0].id)
+    for n in ast.walk(node):
+        if isinstance(n, ast.For) and (isinstance(n.iter, (ast.GeneratorExp, ast.ListComp)) or (isinstance(n.iter, ast.Name) and n.iter.id in names)):
+            return True
+    return False
+
+
+def fuse_comprehension_loops(fn: ast.AST) -> bool:
+    """`for t in (e for y in IT if C): BODY`  ->  `for y in IT: if C: t = e; BODY` (also through a local that names the
+    comprehension, is bound once and is used only as that loop's iterable).  The filter of the comprehension becomes an `if`
+    inside the loop, which is where the rules look for guards."""
+    changed = False
+
+    def uses(name):
+        return [n for n in ast.walk(fn) if isinstance(n, ast.Name) and n.id == name]
+
+    def fuse(loop, comp):
+        if len(comp.generators) != 1 or comp.generators[0].is_async or loop.orelse:
+            return None
+        g = comp.generators[0]
+        if any(isinstance(n, (ast.Break, ast.Continue)) for b in loop.body for n in ast.walk(b) if not isinstance(b, (ast.For, ast.While))):
+            # `continue` / `break` keep their meaning (they still refer to the one loop), nothing to do
+            pass
+        body = list(loop.body)
+        if not (isinstance(comp.elt, ast.Name) and isinstance(g.target, ast.Name) and isinstance(loop.target, ast.Name) and comp.elt.id == g.target.id):
+            body = [ast.copy_location(ast.Assign([copy.deepcopy(loop.target)], copy.deepcopy(comp.elt)), loop)] + body
+            new_target = copy.deepcopy(g.target)
+            ifs = [copy.deepcopy(c) for c in g.ifs]
+        else:
+            # same element: keep the loop's own name for it
+            class R(ast.NodeTransformer):
+                def visit_Name(self, n):
+                    return ast.copy_location(ast.Name(loop.target.id, n.ctx), n) if n.id == g.target.id else n
+            new_target = copy.deepcopy(loop.target)
+            ifs = [R().visit(copy.deepcopy(c)) for c in g.ifs]
+        for c in reversed(ifs):
+            body = [ast.copy_location(ast.If(c, body, []), loop)]
+        return ast.copy_location(ast.For(new_target, copy.deepcopy(g.iter), body, [], None), loop)
+
+    def rewrite(blk):
+        nonlocal changed
+        i = 0
+        while i < len(blk):
+            s = blk[i]
+            if isinstance(s, ast.For):
+                comp, drop = None, None
+                if isinstance(s.iter, (ast.GeneratorExp, ast.ListComp)):
+                    comp = s.iter
+                elif isinstance(s.iter, ast.Name):
+                    nm = s.iter.id
+                    defs = [(k, d) for k, d in enumerate(blk[:i]) if isinstance(d, ast.Assign) and len(d.targets) == 1 and isinstance(d.targets[0], ast.Name) and d.targets[0].id == nm]
+                    if len(defs) == 1 and isinstance(defs[0][1].value, (ast.GeneratorExp, ast.ListComp)) and len(uses(nm)) == 2:
+                        k, d = defs[0]
+                        read = {n.id for n in ast.walk(d.value) if isinstance(n, ast.Name)}
+                        between = {n.id for b in blk[k + 1 : i] for n in ast.walk(b) if isinstance(n, ast.Name) and isinstance(n.ctx, (ast.Store, ast.Del))}
+                        if not (read & between):
+                            comp, drop = d.value, k
+                if comp is not None:
+                    new = fuse(s, comp)
+                    if new is not None:
+                        blk[i] = new
+                        if drop is not None:
+                            del blk[drop]
+                            i -= 1
+                        changed = True
+                        continue
+            for fld in ("body", "orelse", "finalbody"):
+                b = getattr(s, fld, None)
+                if isinstance(b, list) and b and isinstance(b[0], ast.stmt) and not isinstance(s, (ast.FunctionDef, ast.AsyncFunctionDef, ast.ClassDef)):
+                    rewrite(b)
+            if isinstance(s, ast.Try):
+                for h in s.handlers:
+                    rewrite(h.body)
+            if isinstance(s, ast.Match):
+                for c in s.cases:
+                    rewrite(c.body)
+            i += 1
+
+    rewrite(fn.body)
     if changed:
         ast.fix_missing_locations(fn)
     return changed
